@@ -181,18 +181,7 @@ extern "C" void h_file_trunc(int ver, int feat, int thenSave, int seg, int nseg)
 	NifFile nif;
 	int rc = fm_load(nif, s0, true, seg, nseg);
 	sym_note("rc", rc);
-	auto shapes = nif.GetShapes();
-	for (auto s : shapes) {
-		std::vector<Vector3> v;
-		nif.GetVertsForShape(s, v);
-		std::vector<Triangle> t;
-		s->GetTriangles(t);
-		std::vector<std::string> bones;
-		nif.GetShapeBoneList(s, bones);
-		nif.GetShader(s);
-	}
-	nif.GetNodes();
-	nif.GetRootNode();
+	fm_query_battery(nif);
 	if (thenSave) {
 		if (rc == 0) {
 			FmRange o = fm_save(nif, false);
